@@ -732,6 +732,7 @@ func mergeStats(dst, src *Stats) {
 	dst.AssertsTotal += src.AssertsTotal
 	dst.Discharged += src.Discharged
 	dst.Inconclusive += src.Inconclusive
+	dst.SolverRetries += src.SolverRetries
 	dst.Unsupported += src.Unsupported
 	dst.FuelOut += src.FuelOut
 	dst.Instr += src.Instr
